@@ -626,3 +626,36 @@ package regexp2
 //@     invariant old(n) <= 0 ==> n == old(n)
 //@     invariant len(flat) == 2*len(out)
 //@     decreases ite(runner.code.RightToLeft, 2*startAt, 2*(len(input) - startAt)) + ite(previousMatchLength == 0, 0, 1)
+
+// ---------------------------------------------------------------------------------------------
+// C10: deadline arithmetic must not overflow (fastclock.go). Timing behaviour itself is C14 (not applicable).
+// ---------------------------------------------------------------------------------------------
+//@ func (t *atomicTime) read() (v fasttime)
+//@   trusted atomic load; the clock value counts ~milliseconds since the clock started, far below 2^62
+//@   requires t != nil
+//@   ensures 0 <= v && v < 4611686018427387904
+//@ func (t *atomicTime) write(v fasttime)
+//@   trusted atomic store
+//@   requires t != nil
+//@ func durationToTicks(d time.Duration) (t fasttime)
+//@   props C10
+//@   overflow
+//@   ensures t == d >> 20
+//@ func addDuration(a time.Duration, b time.Duration) (s time.Duration)
+//@   props C10
+//@   overflow
+//@   requires a >= 0 && b >= 0
+//@   ensures s == min(a + b, 9223372036854775807) && s >= 0
+// the tick period is a configuration value (SetTimeoutCheckPeriod); assumed non-negative
+//@ axiom clockperiod: clockPeriod >= 0
+//@ func makeDeadline(d time.Duration) (end fasttime)
+//@   props C10
+//@   overflow
+//@   requires 0 <= d
+//@   modifies objs(fastclock)
+//@   ensures[not-in-the-past] end >= 0
+//@ func extendClock(end fasttime)
+//@   props C10
+//@   overflow
+//@   requires 0 <= end && end < 4611686018427387904 + 17592186044416
+//@   modifies objs(fastclock)
